@@ -706,8 +706,11 @@ class PE:
                             handled, val = r
                     if not handled:
                         val = self.builtin(env, c, argvals)
-                    # &mut arguments: forget what they point to
-                    for ai, a in enumerate(c.args):
+                    # &mut arguments: forget what they point to (unless the call model says it has already
+                    # written the callee's effect on them: it sets pe.keep_mut_args for this one call)
+                    keep = getattr(self, "keep_mut_args", False)
+                    self.keep_mut_args = False
+                    for ai, a in enumerate(c.args if not keep else []):
                         if a["k"] in ("copy", "move") and a["place"].get("ty", "").startswith("&mut"):
                             av = argvals[ai]
                             if av is not None and av[0] == "ref":
